@@ -132,7 +132,8 @@ def edges(world, fname, kind, e, dangling_ok):
         t = find_units(g, ref) if kind == 'u' else find_comp(g, ref)
         if t is None:
             return None
-        return [(True, (url, kind, ref))]
+        # an imported component may encapsulate components of its own
+        return [(True, (url, kind, ref))] + ([(False, (fname, 'c', k['name'])) for k in e['kids']] if kind == 'c' else [])
     out = []
     refs = [('u', k) for k in e['kids']] if kind == 'u' else [('c', k['name']) for k in e['kids']] + [('u', un) for un in e['units']]
     for kd, k in refs:
@@ -390,7 +391,8 @@ def random_world(rng, nfiles=None, cyclic=0.15):
         def comp(depth):
             n = 'c%d' % cnt[0]; cnt[0] += 1
             if rng.random() < 0.45:
-                return C(n, imp=target('c', 'c'))
+                own = [comp(depth + 1) for _ in range(rng.randint(1, 2))] if depth < 2 and rng.random() < 0.3 else []
+                return C(n, imp=target('c', 'c'), kids=own)
             kids = [comp(depth + 1) for _ in range(rng.randint(0, 2))] if depth < 2 and rng.random() < 0.5 else []
             units = [rng.choice(unames + [STD]) for _ in range(rng.randint(0, 2))] if rng.random() < 0.8 else []
             if rng.random() < 0.04:
